@@ -18,7 +18,7 @@ func init() {
 	register("C20", func(tier string) CheckSpec {
 		depth, budget := 4, 240*time.Second
 		if tier == "thorough" {
-			depth, budget = 6, 30*time.Minute
+			depth, budget = 6, 20*time.Minute
 		}
 		return CheckSpec{Level: "model_checking", Rule: searchRule, Assumptions: append([]string{
 			"downtime handling is driven through the keeper's HandleSlashPacket (the step after packet validation); the full packet path is covered by the C08 scenario",
